@@ -88,11 +88,10 @@ SegUpdate(S, st0, seg) ==
   LET st == [ st0 EXCEPT !.lay = st0.lay \cup NewLayouts(S, seg) ] IN
   IF seg.op = "from_bindings" /\ Len(seg.evs) \in {1, 2} /\ seg.evs[Len(seg.evs)].ev = "rt.create_bind_group"
   THEN [ st EXCEPT !.bg = [ x \in DOMAIN st.bg \cup {seg.arg} |-> IF x = seg.arg THEN seg.evs[Len(seg.evs)].id ELSE st.bg[x] ] ]
-  ELSE IF seg.op = "get_layout"
-  THEN LET t == SelectSeq(seg.evs, LAMBDA e : e.ev = "rt.tokens") IN
+  ELSE LET t == SelectSeq(seg.evs, LAMBDA e : e.ev = "rt.tokens")
+           gs == { t[i].group : i \in DOMAIN t } IN
        IF t = << >> THEN st
-       ELSE [ st EXCEPT !.tok = [ x \in DOMAIN st.tok \cup {seg.arg} |-> IF x = seg.arg THEN t[1].fields ELSE st.tok[x] ] ]
-  ELSE st
+       ELSE [ st EXCEPT !.tok = [ x \in DOMAIN st.tok \cup gs |-> IF x \in gs THEN (CHOOSE y \in Range(t) : y.group = x).fields ELSE st.tok[x] ] ]
 
 RECURSIVE Fold(_, _, _, _, _)
 Fold(S, segs, i, st, fails) ==
